@@ -74,7 +74,12 @@ class DirDBM:
         Encode a key so it can be used as a filename.
         """
         # NOTE: '_' is NOT in the base64 alphabet!
-        return base64.encodebytes(k).replace(b"\n", b"_").replace(b"/", b"-")
+        #
+        # The empty key encodes to no characters at all, which would name the
+        # database directory itself rather than a file in it; store it under
+        # "_" (an empty base64 line), which _decode maps back to b"".
+        encoded = base64.encodebytes(k) or b"\n"
+        return encoded.replace(b"\n", b"_").replace(b"/", b"-")
 
     def _decode(self, k):
         """
